@@ -444,6 +444,29 @@ def _escapes(loop: ast.For, names, root) -> bool:
     return bool(found)
 
 
+def split_parallel_assign(stmts: list[ast.stmt]) -> list[ast.stmt]:
+    """a, b = (E1, E2)  /  a, b = [E1, E2]   ->   a = E1; b = E2     when no Ei reads a name the statement binds (evaluation order kept)"""
+    out = []
+    for s_ in stmts:
+        for fld in ("body", "orelse", "finalbody"):
+            b = getattr(s_, fld, None)
+            if isinstance(b, list) and b and isinstance(b[0], ast.stmt) and not isinstance(s_, (ast.FunctionDef, ast.AsyncFunctionDef, ast.ClassDef)):
+                setattr(s_, fld, split_parallel_assign(b))
+        if isinstance(s_, ast.Try):
+            for h in s_.handlers:
+                h.body = split_parallel_assign(h.body)
+        if isinstance(s_, ast.Assign) and len(s_.targets) == 1 and isinstance(s_.targets[0], (ast.Tuple, ast.List)) and isinstance(s_.value, (ast.Tuple, ast.List)) \
+                and len(s_.targets[0].elts) == len(s_.value.elts) and all(isinstance(t, ast.Name) for t in s_.targets[0].elts) \
+                and not any(isinstance(v, ast.Starred) for v in s_.value.elts):
+            names = {t.id for t in s_.targets[0].elts}
+            if len(names) == len(s_.targets[0].elts) and not any(isinstance(n, ast.Name) and n.id in names for v in s_.value.elts for n in ast.walk(v)):
+                for t, v in zip(s_.targets[0].elts, s_.value.elts):
+                    out.append(ast.fix_missing_locations(ast.copy_location(ast.Assign(targets=[t], value=v), s_)))
+                continue
+        out.append(s_)
+    return out
+
+
 def lower_reduce(stmts: list[ast.stmt]) -> list[ast.stmt]:
     """x = reduce(f, xs, init)  /  return reduce(f, xs, init)   ->   acc = init; for v in xs: acc = f(acc, v); x = acc / return acc
     (functools.reduce with an initial value, f a plain callable reference or a lambda)"""
@@ -1010,6 +1033,27 @@ def merge_display_building(stmts: list[ast.stmt]) -> list[ast.stmt]:
                     break
             if len(vs) > n0:
                 new = ast.Assign(targets=[ast.Name(id=name, ctx=ast.Store())], value=ast.Dict(keys=ks, values=vs))
+                ast.copy_location(new, s)
+                ast.fix_missing_locations(new)
+                out.append(new)
+                i = j
+                continue
+        # a list display whose slots are then overwritten by position: l = [a, b]; l[0] = x   ->   l = [x, b]   (the replaced element is pure)
+        if name and isinstance(v, ast.List) and v.elts and not any(isinstance(e, ast.Starred) for e in v.elts):
+            j = i + 1
+            elts = list(v.elts)
+            while j < len(stmts):
+                x = stmts[j]
+                if isinstance(x, ast.Assign) and len(x.targets) == 1 and isinstance(x.targets[0], ast.Subscript) and isinstance(x.targets[0].value, ast.Name) \
+                        and x.targets[0].value.id == name and isinstance(x.targets[0].slice, ast.Constant) and type(x.targets[0].slice.value) is int \
+                        and -len(elts) <= x.targets[0].slice.value < len(elts) and is_pure(elts[x.targets[0].slice.value]) \
+                        and all(is_pure(e) for e in elts) and not any(isinstance(n, ast.Name) and n.id == name for n in ast.walk(x.value)):
+                    elts[x.targets[0].slice.value] = x.value
+                    j += 1
+                else:
+                    break
+            if j > i + 1:
+                new = ast.Assign(targets=[ast.Name(id=name, ctx=ast.Store())], value=ast.List(elts=elts, ctx=ast.Load()))
                 ast.copy_location(new, s)
                 ast.fix_missing_locations(new)
                 out.append(new)
